@@ -3,7 +3,8 @@
  (i)  spec -> code: an emitted scenario whose expected number / discrete field is corrupted must be reported by the replay;
  (ii) code -> spec: a recorded event with one corrupted field must be rejected by TLC, the untouched event accepted;
  (iii) with --tier thorough: every seeded change under seeded/<id>/ must turn the named property's quick check red
-       (tools/try_seed_wt.sh: the patch is applied to a scratch worktree, /repo is never touched).
+       (tools/try_seed_wt.sh: the patch is applied to a scratch worktree, /repo is never touched);
+ (iv) with --tier thorough: the equivalent changes of equivalent/patch.diff must leave every quick check silent.
 """
 from __future__ import annotations
 import os, json, copy, subprocess, sys
@@ -78,5 +79,9 @@ def selftest(tier: str, seed: int) -> int:
             meta = json.load(open(os.path.join(VERIF, 'seeded', sid, 'meta.json')))
             out = subprocess.run([os.path.join(VERIF, 'tools', 'try_seed_wt.sh'), f'seeded/{sid}', meta['property']], capture_output=True, text=True).stdout
             report(f'seeded change {sid} turns ./check {meta["property"]} red', 'VIOLATION property=' in out or 'violating scenarios' in out)
+        # ---- (iv) equivalent changes: every check must stay silent
+        out = subprocess.run([os.path.join(VERIF, 'tools', 'try_equivalent.sh')], capture_output=True, text=True).stdout
+        lines = [l for l in out.splitlines() if ' exit=' in l]
+        report(f'equivalent changes (equivalent/patch.diff): {sum(1 for l in lines if " exit=0 " in l)} of {len(lines)} checks silent', len(lines) == 20 and all(' exit=0 ' in l for l in lines))
     print('selftest:', 'all bindings detect' if ok else 'FAILED')
     return 0 if ok else 2
